@@ -4,6 +4,26 @@ use zydeco_statics::{BuiltinPackagePlan, BuiltinPackageValue, arena::StaticsAren
 use zydeco_surface::{scoped::arena::ScopedArena, textual::arena::SpanArena};
 use zydeco_utils::pass::CompilerPass;
 
+/// Tag assignment for constructors and destructors.
+///
+/// Data and codata types are equal up to the order of their arms, so one value may be built
+/// at one listing and eliminated at another. The rank of a name among the names of its
+/// definition is the same for every such listing, whereas its declaration position is not.
+trait TagRank<'name, Name: 'name> {
+    fn tag_rank(self, name: &Name) -> Option<usize>;
+}
+
+impl<'name, Name: Ord + 'name, Names: Iterator<Item = &'name Name>> TagRank<'name, Name>
+    for Names
+{
+    fn tag_rank(self, name: &Name) -> Option<usize> {
+        let (found, smaller) = self.fold((false, 0), |(found, smaller), other| {
+            (found || other == name, smaller + usize::from(other < name))
+        });
+        found.then_some(smaller)
+    }
+}
+
 /// Lower typed syntax nodes into stack IR.
 trait Lower {
     type Kont;
@@ -345,7 +365,8 @@ impl Lower for ss::VPatId {
                 let data_id = lo.statics.data_pat_hints[self];
                 let idx = lo.statics.datas[&data_id]
                     .iter()
-                    .position(|(tag_branch, _ty)| tag_branch == &name)
+                    .map(|(tag_branch, _ty)| tag_branch)
+                    .tag_rank(&name)
                     .expect("Constructor tag not found");
                 let ctor_idx = CtorIdx { idx, name };
                 Ctor(ctor_idx, tail_vpat).into()
@@ -424,7 +445,8 @@ impl Lower for ss::ValueId {
                 let data_id = lo.statics.data_hints[self];
                 let idx = lo.statics.datas[&data_id]
                     .iter()
-                    .position(|(tag_branch, _ty)| tag_branch == &name)
+                    .map(|(tag_branch, _ty)| tag_branch)
+                    .tag_rank(&name)
                     .expect("Constructor tag not found");
                 let body = body.lower(lo, ());
                 body.map(|body| Ctor(CtorIdx { idx, name }, body).build(lo, site))
@@ -568,7 +590,8 @@ impl Lower for ss::CompuId {
                         let codata_id = lo.statics.codata_hints[self];
                         let idx = lo.statics.codatas[&codata_id]
                             .iter()
-                            .position(|(tag_branch, _ty)| tag_branch == &name)
+                            .map(|(tag_branch, _ty)| tag_branch)
+                            .tag_rank(&name)
                             .expect("Destructor tag not found");
                         let dtor_idx = DtorIdx { idx, name };
                         let branch_stack = Bullet.build(lo, site);
@@ -582,7 +605,8 @@ impl Lower for ss::CompuId {
                 let codata_id = lo.statics.codata_hints[&body];
                 let idx = lo.statics.codatas[&codata_id]
                     .iter()
-                    .position(|(tag_branch, _ty)| tag_branch == &name)
+                    .map(|(tag_branch, _ty)| tag_branch)
+                    .tag_rank(&name)
                     .expect("Destructor tag not found");
                 let dtor_idx = DtorIdx { idx, name };
                 let stack = Cons(dtor_idx, stack).build(lo, site);
